@@ -133,7 +133,7 @@ class Ctx:
             features = self.default_features
         features = tuple(sorted(effective(features)))
         if features in self._facts:
-            return self._facts[features]
+            return self._use(self._facts[features])
         os.makedirs(CACHE, exist_ok=True)
         tag = "-".join(features) if features else "none"
         path = os.path.join(CACHE, "facts-%s-%s.json" % (self.thash(), tag))
@@ -157,6 +157,15 @@ class Ctx:
         if f["crate"] != "elf" or len(f["fns"]) < 100:
             raise SystemExit("fact base implausible: crate=%r fns=%d" % (f["crate"], len(f["fns"])))
         self._facts[features] = f
+        return self._use(f)
+
+    @staticmethod
+    def _use(f):
+        # normal forms (prov.norm) look through in-crate helpers of the program they are told about: always the one being judged,
+        # whichever rule asks first (no dependence on the order in which rules or properties run)
+        from . import prov
+        from .engine import program
+        prov.set_program(program(f))
         return f
 
     def _gc_cache(self):
